@@ -102,7 +102,7 @@ Fixpoint build_loop (mws : list mw) (k : nat) (t : rt) : rt :=
   end.
 
 Definition build (mws : list mw) (logging : bool) (base : rt) : rt :=
-  let t := build_loop mws (length mws) base in
+  let t := build_loop mws (List.length mws) base in
   if logging then log_mw t else t.
 
 Definition build_conf (interp : M -> mw) (r : conf) (base : rt) : rt :=
@@ -197,10 +197,9 @@ Arguments gclient : clear implicits.
 Arguments ctor : clear implicits.
 Arguments registry : clear implicits.
 Arguments op : clear implicits.
-Arguments outcome : clear implicits.
-Arguments Registered {M Client}.
-Arguments Built {M Client}.
-Arguments PanicDup {M Client}.
-Arguments PanicNotReg {M Client}.
+Arguments Registered {Client}.
+Arguments Built {Client}.
+Arguments PanicDup {Client}.
+Arguments PanicNotReg {Client}.
 Arguments Register {M Client}.
 Arguments NewRest {M Client}.
